@@ -248,9 +248,17 @@ def decide_all(case):
                 tr = FakeTransport(loop, peername=(p, 40000))
                 tr.attach(GeminiServerProtocol(handler, MiddlewareChain([ac]), spy))
                 tr.feed(b"titan://localhost/f.gmi;size=4;token=t\r\nDATA")
+                gone = (len(out) + len(p)) % 3 == 0
+                if gone:
+                    # the peer hangs up right after sending: the verdict is reached when nobody is left to answer
+                    tr.peer_disconnect(ConnectionResetError(104, "reset") if len(out) % 2 else None)
                 await vloop.settle(8)
                 S = tr.written()
                 ran = [e for e in sim.log if e[0] in ("upload", "handler")]
+                if gone:
+                    # nothing can be answered; what matters is whether the upload was carried out
+                    out.append("admit" if len(ran) == 1 else ("refuse" if not ran else "admit-with-%d-invocations" % len(ran)))
+                    continue
                 if S.startswith(b"53 "):
                     out.append("refuse" if not ran else "refused-but-upload-ran")
                 elif S.startswith(b"20 "):
